@@ -104,9 +104,13 @@ func c05Float(r *kit.Rand) float32 {
 
 func c05Gen(r *kit.Rand, idx int) c05Case {
 	c := c05Case{Index: idx, KV: map[string]any{}}
-	c.Alignment = kit.Pick(r, []int{0, 0, 1, 8, 16, 32, 64, 4096})
+	c.Alignment = kit.Pick(r, []int{0, 0, 1, 8, 16, 32, 64, 4096, -1})
 	if c.Alignment == 4096 && r.Chance(1, 2) {
 		c.Alignment = 128
+	}
+	if c.Alignment == -1 {
+		// the format asks for a multiple of 8, not for a power of two
+		c.Alignment = kit.Pick(r, []int{24, 40, 48, 56, 96, 104, 1000, 3, 7, 33})
 	}
 	if c.Alignment != 0 {
 		c.KV["general.alignment"] = uint32(c.Alignment)
@@ -404,7 +408,7 @@ func TestVerifC05(t *testing.T) {
 	rep := kit.NewReport("C05")
 	cfg := rep.Cfg()
 	defer rep.Flush()
-	rep.Set("rule", "case i = PRNG(seed,'C05',i): KV map over all writable value types (+alignment in {absent,1,8,16,32,64,128,4096}), 0-40 tensors over every kind of typeSize's table with byte sizes mostly not multiples of the alignment, unique PRNG bytes per tensor; written by the real WriteGGUF, decoded by the real Decode and by an independent header reader. Non-trivial & distinct = distinct (alignment, tensor-count bucket, pattern of which of the first 8 tensors (in written order) have unaligned size, set of KV value types, maxArraySize) among cases with >=3 tensors of which at least one non-last is unaligned")
+	rep.Set("rule", "case i = PRNG(seed,'C05',i): KV map over all writable value types (+alignment in {absent,1,8,16,32,64,128,4096} or not a power of two: {24,40,48,56,96,104,1000,3,7,33}), 0-40 tensors over every kind of typeSize's table with byte sizes mostly not multiples of the alignment, unique PRNG bytes per tensor; written by the real WriteGGUF, decoded by the real Decode and by an independent header reader. Non-trivial & distinct = distinct (alignment, tensor-count bucket, pattern of which of the first 8 tensors (in written order) have unaligned size, set of KV value types, maxArraySize) among cases with >=3 tensors of which at least one non-last is unaligned")
 	rep.Set("assumptions", []string{"tensor data supplied through WriterTo has exactly Tensor.Size() bytes", "tensor names unique within a file", "block-quantised kinds get a row length that is a multiple of their block size (Size() is exact)"})
 	dir := t.TempDir()
 	n := cfg.N(4000, 3000000)
